@@ -271,17 +271,10 @@ func (ic *inferContext) inferRelTypesFromPremise(premises []ast.Term, state *inf
 		return []*inferState{nextState}, nil
 
 	case ast.Ineq:
-		nextState := state.makeNext()
-		leftTpe := boundOfArg(t.Left, state.asMap(), bc.nameTrie)
-		rightTpe := boundOfArg(t.Right, state.asMap(), bc.nameTrie)
-
-		tpe := symbols.LowerBound(map[ast.Variable]ast.BaseTerm{}, []ast.BaseTerm{leftTpe, rightTpe})
-		if tpe.Equals(symbols.EmptyType) {
-			return nil, fmt.Errorf("type mismatch %v : left type %v right type %v", premise, leftTpe, rightTpe)
-		}
-		// An inequality holds for values outside the common type as well: it tells
-		// nothing about the type of either side.
-		return []*inferState{nextState}, nil
+		// An inequality holds for values outside the common type of its sides as well, and
+		// certainly when the two types have nothing in common: it neither narrows a type
+		// nor rules a typing alternative out.
+		return []*inferState{state.makeNext()}, nil
 	}
 	return nil, fmt.Errorf("unexpected state %v", premise)
 }
